@@ -124,7 +124,8 @@ def _gi(i, m, idx, node):
             from ..engine import PyRaise
             raise PyRaise(ExcVal("KeyError"), node)
     if i.ctx.decide(z3.Select(m.dom, k)):
-        return z3.Select(m.val, k)
+        w = getattr(m, "val_wrap", None)
+        return w(z3.Select(m.val, k)) if w else z3.Select(m.val, k)
     if m.default == "int":
         m.insert_new(i, k, _zero(m.val.sort().range()))
         return z3.Select(m.val, k)
@@ -205,13 +206,15 @@ def _iter(i, v, node):
             return z3.IntVal(0), (lambda k: None)
         keys, val = m.keys, m.val
 
+        w = getattr(m, "val_wrap", None) or (lambda x: x)
+
         def get(j):
             kk = z3.Select(keys.cols, j)
             if v.what == "items":
-                return (kk, z3.Select(val, kk))
+                return (kk, w(z3.Select(val, kk)))
             if v.what == "keys":
                 return kk
-            return z3.Select(val, kk)
+            return w(z3.Select(val, kk))
         return keys.length, get
     return NotImplemented
 
